@@ -82,7 +82,11 @@ pub fn cells(ctx: &Ctx, stats: &mut Stats, key: &str) {
     let orders: [[usize; 3]; 6] = [[0, 1, 2], [0, 2, 1], [1, 0, 2], [1, 2, 0], [2, 0, 1], [2, 1, 0]];
     for subset in 1u8..8 {
         for order in orders {
-            for b_ordered in [false, true] {
+            // 0: all unordered; 1: TwinB::get::<u8> ordered; 2: TwinA::get::<u16> ordered (next to the
+            // unordered TwinA::get::<u8>: two instantiations of one generic method)
+            for ordered_one in [0u8, 1, 2] {
+                let b_ordered = ordered_one == 1;
+                let a16_ordered = ordered_one == 2;
                 let build = || {
                     let mut c = unimock::verif::DynClause::new();
                     for k in order {
@@ -93,6 +97,7 @@ pub fn cells(ctx: &Ctx, stats: &mut Stats, key: &str) {
                             0 => c.push(TwinAMock::get.with_types::<u8>().each_call(matching!(_)).returns(1u32)),
                             1 if b_ordered => c.push(TwinBMock::get.with_types::<u8>().next_call(matching!(_)).returns(2u32).n_times(2)),
                             1 => c.push(TwinBMock::get.with_types::<u8>().each_call(matching!(_)).returns(2u32)),
+                            _ if a16_ordered => c.push(TwinAMock::get.with_types::<u16>().next_call(matching!(_)).returns(3u32).n_times(2)),
                             _ => c.push(TwinAMock::get.with_types::<u16>().each_call(matching!(_)).returns(3u32)),
                         }
                     }
@@ -103,7 +108,7 @@ pub fn cells(ctx: &Ctx, stats: &mut Stats, key: &str) {
                         ctx.tick();
                         stats.add("e_cells", 1);
                         stats.add("traces_validated_against_impl", 1);
-                        let label = format!("configured {subset:03b} in clause order {order:?}, TwinB::get {}", if b_ordered { "ordered" } else { "unordered" });
+                        let label = format!("configured {subset:03b} in clause order {order:?}, TwinB::get {}, TwinA::get::<u16> {}", if b_ordered { "ordered" } else { "unordered" }, if a16_ordered { "ordered" } else { "unordered" });
                         let u = match catch(build) {
                             Ok(u) => u,
                             Err(msg) => {
@@ -148,6 +153,10 @@ pub fn cells(ctx: &Ctx, stats: &mut Stats, key: &str) {
                             }
                             let b_calls = [first, second].iter().filter(|k| **k == 1).count();
                             if subset & 2 != 0 && b_ordered && b_calls != 2 {
+                                want_lines += 1;
+                            }
+                            let a16_calls = [first, second].iter().filter(|k| **k == 2).count();
+                            if subset & 4 != 0 && a16_ordered && a16_calls != 2 {
                                 want_lines += 1;
                             }
                             let lines = verdict.as_ref().err().map(|m| m.lines().count()).unwrap_or(0);
